@@ -4,7 +4,7 @@
 From Coq Require Import List Bool ZArith.
 From Coq.Strings Require Import Byte.
 Import ListNotations.
-From SV Require Import Text G_c03 C03_Model C03_Lemmas C03_Fts C03_Hits C03_Chain C03_Write.
+From SV Require Import Text G_c03 C03_Model C03_Lemmas C03_Fts C03_Hits C03_Chain C03_Write C03_Cli.
 
 (* the modelled chains are the regenerated priority lists FMTS_ALL, which start with FMTS *)
 Theorem C03_chains_pinned :
@@ -256,6 +256,77 @@ Theorem C03_resolve_path_handle : forall dd ex s a,
   resolve dd ex (FPath s) a = resolve dd ex (FStr s) a /\ resolve dd ex FHandle a = DPassHandle /\ resolve dd ex FBytes a = DErrBytes.
 Proof. exact (fun dd ex s a => conj (resolve_path_is_str dd ex s a) (resolve_handle dd ex a)). Qed.
 Print Assumptions C03_resolve_path_handle.
+
+(* ---- the command-line converter (sugar convert / convertf): read in the -f format else the detected one; write in the -fo
+   format, else the one the extension of -o declares, else (to stdout) the -f / input format; error rows *)
+Theorem C03_cli_decision_table : forall w det n fmt out fmtout,
+  cli_convert w det n fmt out fmtout = cli_table w det n fmt out fmtout.
+Proof. exact cli_decision_table. Qed.
+Print Assumptions C03_cli_decision_table.
+
+Theorem C03_cli_fmtout_wins : forall w det n fmt out x r,
+  x <> [] -> cli_convert w det n fmt out (Some x) = r -> cli_ok r = true -> cli_fw r = Some (lower x).
+Proof. exact cli_fmtout_wins. Qed.
+Print Assumptions C03_cli_fmtout_wins.
+
+Theorem C03_cli_by_extension : forall w det n fmt p e stem r,
+  In p (chain w) -> In e (p_exts p) ->
+  forallb (fun c => negb (byte_eqb c slash)) stem = true -> forallb (fun c => byte_eqb c dot) stem = false ->
+  cli_convert w det n fmt (Some (stem ++ dot :: e)) None = r -> cli_ok r = true ->
+  cli_fw r = Some (p_name p) /\ exists fr, r = CFile (stem ++ dot :: e) fr (p_name p).
+Proof. exact cli_by_extension. Qed.
+Print Assumptions C03_cli_by_extension.
+
+Theorem C03_cli_default_is_input_format : forall w d n r,
+  cli_convert w (Some d) (S n) None None None = r -> cli_ok r = true -> r = CStdout (lower d) (lower d).
+Proof. exact cli_default_is_input_format. Qed.
+Print Assumptions C03_cli_default_is_input_format.
+
+Theorem C03_cli_fmt_is_output_format : forall w det n f r,
+  f <> [] -> cli_convert w det n (Some f) None None = r -> cli_ok r = true -> r = CStdout (lower f) (lower f).
+Proof. exact cli_fmt_is_output_format. Qed.
+Print Assumptions C03_cli_fmt_is_output_format.
+
+Theorem C03_cli_read_format : forall w det n fmt out fmtout r,
+  cli_convert w det n fmt out fmtout = r -> cli_ok r = true ->
+  cli_fr r = match fmt with Some x => Some (lower x) | None => option_map lower det end.
+Proof. exact cli_read_format. Qed.
+Print Assumptions C03_cli_read_format.
+
+Theorem C03_cli_errors : forall w det n fmt out fmtout,
+  (fmt = None -> det = None -> cli_convert w det n fmt out fmtout = CErr EOS) /\
+  (forall name fr, cli_read w det fmt = inr fr -> out = Some name -> fmtout = None -> detect_ext w name = None ->
+     cli_convert w det n fmt out fmtout = CErr EOS) /\
+  (forall x, fmt = Some x -> lookup_support (lower x) (support_tab w) = None -> cli_convert w det n fmt out fmtout = CErr EKey) /\
+  (cli_ok (cli_convert w det n fmt out fmtout) = true ->
+     exists fr fw, cli_fr (cli_convert w det n fmt out fmtout) = Some fr /\ cli_fw (cli_convert w det n fmt out fmtout) = Some fw /\
+                   readable w fr = None /\ writable w fw = None).
+Proof. exact cli_errors. Qed.
+Print Assumptions C03_cli_errors.
+
+Theorem C03_cli_case_insensitive : forall w det n f f' out g g',
+  lower f = lower f' -> lower g = lower g' ->
+  cli_convert w det n (Some f) out (Some g) = cli_convert w det n (Some f') out (Some g') /\
+  cli_convert w det n (Some f) out None = cli_convert w det n (Some f') out None /\
+  cli_convert w det n None out (Some g) = cli_convert w det n None out (Some g').
+Proof. exact cli_case_insensitive. Qed.
+Print Assumptions C03_cli_case_insensitive.
+
+Example C03_witness_cli :
+  cli_convert Seqs (Some (bs "fasta"%bs)) 2 None None None = CStdout (bs "fasta"%bs) (bs "fasta"%bs) /\
+  cli_convert Seqs (Some (bs "fasta"%bs)) 2 None (Some (bs "d/out.v2.stk"%bs)) None
+    = CFile (bs "d/out.v2.stk"%bs) (bs "fasta"%bs) (bs "stockholm"%bs) /\
+  cli_convert Seqs (Some (bs "fasta"%bs)) 2 (Some (bs "FASTA"%bs)) (Some (bs "out.stk"%bs)) (Some (bs "SJson"%bs))
+    = CFile (bs "out.stk"%bs) (bs "fasta"%bs) (bs "sjson"%bs) /\
+  cli_convert Seqs (Some (bs "genbank"%bs)) 1 None None None = CErr ERuntime /\
+  cli_convert Seqs (Some (bs "genbank"%bs)) 1 None None (Some (bs "fasta"%bs)) = CStdout (bs "genbank"%bs) (bs "fasta"%bs) /\
+  cli_convert Fts (Some (bs "blast"%bs)) 3 None (Some (bs "hits.txt"%bs)) None = CErr EOS /\
+  cli_convert Fts None 0 None None None = CErr EOS /\
+  cli_convert Fts (Some (bs "gff"%bs)) 0 None None None = CErr EIndex /\
+  cli_convert Fts (Some (bs "gff"%bs)) 1 (Some (bs "gf"%bs)) None None = CErr EKey /\
+  cli_convert Fts (Some (bs "gff"%bs)) 1 None None (Some []) = CStdout (bs "gff"%bs) (bs "gff"%bs) /\
+  cli_convert Fts (Some (bs "gff"%bs)) 1 None (Some (bs "o.gff"%bs)) (Some []) = CErr EKey.
+Proof. exact witness_cli. Qed.
 
 (* non-vacuity: concrete contents satisfying the hypotheses, and the documented BLAST / MMseqs2 discriminator at work *)
 Example C03_witness_shapes :
